@@ -716,3 +716,133 @@ def functional(ctx):
             except Exception: got = show(r['stdout'])
             c.replay = {'argv': ['--select', expr + '=r'], 'stdin': stdin, 'expected': exp, 'actual': got}
             if got != exp: c.status = 'reproduced'; break
+
+
+# ---------------------------------------------------------------- C10: `=` is the equality --unique uses
+EQ_PAIRS = [('0.3', '0.30000000000000004'), ('1e-17', '2e-17'), ('1', '1.0000000000000002'), ('9007199254740992', '9007199254740993'), ('1', '1.0'), ('1e0', '10e-1'), ('-1', '-1.0'),
+            ('"a"', '"\\u0061"'), ('"a"', '"A"'), ('[1,2]', '[1,2.0]'), ('[1,2]', '[2,1]'), ('{"a":1}', '{"a":1.0}'), ('null', 'false'), ('0', 'false'), ('""', 'null'), ('[]', '{}'),
+            ('18446744073709551615', '18446744073709551614'), ('-9223372036854775808', '-9223372036854775807'), ('1.5', '1.5000000000000002'), ('100', '1e2'), ('"1"', '1')]
+
+
+def eq_function(ctx):
+    """the getter behind `=` returns Boolean(<JsonValue as PartialEq>::eq(a, b)) - the very relation the HashSet of
+    --unique uses - and nothing when an argument is absent"""
+    run = ctx.run
+    fam = run.family('unique.eq_function', '(= a b) is Some(Boolean(a == b)) with == the PartialEq of JsonValue that the --unique key set uses, for all argument values; nothing iff an argument is nothing')
+    run.bounds['eq function'] = 'the two argument values are opaque JsonValues (all values), PartialEq::eq an uninterpreted relation; natively ' + str(len(EQ_PAIRS)) + ' value pairs compared between (= a b) and --unique'
+    EQ = z3.Bool('EQ_val0_val1')
+    def s_apply(ex, st, func, args, ty):
+        i = cval(args[2].t); out = []
+        for present in (True, False):
+            s2 = st.clone(); s2.events.append(('apply', i, present)); out.append((s2, some(s2, named(s2, f'VAL{i}', 'JsonValue')) if present else none(s2)))
+        return out
+    def s_eq(ex, st, func, args, ty):
+        a, b = origin(st, args[0]), origin(st, args[1]); st.events.append(('eq', a, b))
+        if {a, b} != {'VAL0', 'VAL1'}: return None
+        return [(st, BoolV(EQ if func.endswith('eq') else z3.Not(EQ)))]
+    def s_from_bool(ex, st, func, args, ty):
+        return [(st, mk_enum(st, 'JsonValue', ex.enums['JsonValue'].index('Boolean'), 'Boolean', (args[0],)))]
+    summ = [(r'as functions_definitions::Arguments>::apply$', s_apply), (r'^<JsonValue as PartialEq>::(eq|ne)$|^<&JsonValue as PartialEq>::(eq|ne)$', s_eq),
+            (r'<bool as Into<JsonValue>>::into$|<JsonValue as From<bool>>::from$', s_from_bool)]
+    ex = ctx.exec(summaries=summ, max_visits=8)
+    F = ex.find(r'^compare::eq::get::\{closure#0\}::<impl at [^>]*>::get$')
+    st = State(); so = st.new_obj('self', 'Impl')
+    ex.new_frame(st, F, [slot(st, ObjV(so), 'self*'), slot(st, named(st, 'CTX', 'Context'), 'ctx*')])
+    JV = ex.enums['JsonValue']
+    for d in ex.run(st) + list(ex.extra_paths):
+        if d.status == 'infeasible': continue
+        run.paths += 1; fam.paths += 1; fam.obligations += 1; fam.witnesses += 1
+        why = None
+        pres = {e[1]: e[2] for e in d.events if e[0] == 'apply'}
+        if d.status != 'returned': why = f'{d.status} {d.notes[-1:]}'
+        else:
+            r = obj(d, d.ret); rd = ex.discr(d, r).t
+            both = pres.get(0) and pres.get(1)
+            if not both:
+                if not ex.valid(d, rd == 0)[0]: why = 'an absent argument does not give nothing'
+            else:
+                if not ex.valid(d, rd == 1)[0]: why = 'two present arguments give nothing'
+                else:
+                    v = obj(d, d.heap[r.oid][('f', 'Some', 0)])
+                    vd = ex.discr(d, v).t
+                    p = d.heap[v.oid].get(('f', 'Boolean', 0)) if isinstance(v, ObjV) else None
+                    if not ex.valid(d, vd == JV.index('Boolean'))[0] or not isinstance(p, BoolV) or not ex.valid(d, p.t == EQ)[0]:
+                        why = 'the result is not Boolean(a == b) with the PartialEq of JsonValue'
+        if why is None:
+            fam.discharged += 1; fam.add_sample({'arguments present': pres, 'verdict': 'Boolean(PartialEq::eq(a, b)) / nothing'})
+        elif not fam.candidates:
+            fam.candidates.append(Candidate(fam.name, 'eq-not-partial-eq', f'(= a b): {why}', {'present': {str(k): v for k, v in pres.items()}}, unmodelled=(d.havoc or [None])[0]))
+    run.absorb(ex)
+    if fam.candidates:
+        from .cli import run_jawk, show
+        bad = []
+        for a, b in EQ_PAIRS:
+            r1 = run_jawk(ctx, ['--select', f'(= {a} {b})=r', '--style', 'consise'], b'null')
+            r2 = run_jawk(ctx, ['--unique', '--style', 'consise'], (a + '\n' + b + '\n').encode())
+            says = show(r1['stdout']).strip(); rows = len(show(r2['stdout']).strip().splitlines())
+            if (says == '{"r":true}') != (rows == 1): bad.append({'a': a, 'b': b, '(= a b)': says, 'rows kept by --unique': rows})
+        for c in fam.candidates:
+            c.replay = {'disagreements': bad[:4], 'pairs_tried': len(EQ_PAIRS)}
+            c.status = 'reproduced' if bad else 'unit'
+
+
+# ---------------------------------------------------------------- C11: the premise of the frame argument
+CELLS = r'\b(RefCell|OnceCell|LazyCell|Cell|Mutex|RwLock|OnceLock|LazyLock|UnsafeCell|Atomic[A-Z]\w*|LocalKey|SyncUnsafeCell)\b\s*(?:::)?<|\bstatic mut\b|thread_local'
+CELL_ALLOWED = [r'^regex_cache::', r'^output_style::', r'^<impl at src/lib\.rs', r'^go$', r'^main$', r'^go\b', r'augment_args', r'^NAME_TO_FUNCTION', r'^ALL_GROUPS', r'^find_function$', r'^get_fn_help_name$',
+                r'^create_possible_fn_help_types$', r'^functions_definitions::', r'^print_help', r'^get_groups_and_functions$']
+RL_RECORDS = ['{"id":1,"width":10,"l":[3,1,2],"s":"abcab","p":"a."}', '{"id":2,"width":7,"l":[],"s":"xbz","p":"b"}', '{"id":3,"width":1,"l":[5],"s":"","p":"^$"}']
+RL_BATTERY = [
+    ['--select', '(set "w" .width (* (: "w") 2))=d', '--select', '.id=id'],
+    ['--select', '(set "w" .width (set "w" (+ :w 1) (: "w")))=d'],
+    ['--select', '(define "m" (+ . 1) (map .l @m))=d'], ['--select', '(define "m" ^.width (map .l (@ "m")))=d'],
+    ['--select', '(match .s .p)=m'], ['--select', '(match .s .p)=m', '--regular-expression-cache-size', '1'], ['--select', '(match .s .p)=m', '--regular-expression-cache-size', '0'],
+    ['--filter', '(> .width 5)', '--select', '.id=id'], ['--split-by', '.l', '--select', '(+ . ^.width)=x'],
+    ['--set', 'v=(+ 1 2)', '--select', '(+ :v .width)=x'], ['--set', '@m=(+ .width 1)', '--select', '(default @m)=x'],
+    ['--select', '(range 3)=r', '--select', '(size (range .width))=n'], ['--select', '(split "a,b,c" ",")=c', '--select', '(join (split .s "b") "-")=j'],
+    ['--select', '(parse "{\\"a\\":1}")=p', '--select', '(stringify .l)=t'], ['--select', '(map .l (+ . 1))=m', '--select', '(filter .l (> . 1))=f', '--select', '(sort .l)=s'],
+    ['--select', '(concat "x" (stringify .id))=c'], ['--select', '(default .missing "dflt")=d', '--select', '(? (> .width 5) "big" "small")=q'], ['--select', '(take .s 2)=t', '--select', '(size .s)=n'],
+]
+
+
+def record_local_premise(ctx):
+    """C11: the frame obligations treat `dyn Get::get(&self, &Context)` as a function of its arguments. With `&self` that
+    can only fail through interior mutability or statics, so the premise is checked on the MIR: no body outside the
+    output writers, the regex cache (the property's named exception), the function table and clap's derive mentions a
+    cell / lock / atomic / static-mut type. A hit is not yet a violation: it is replayed natively as out(A.B) = out(A).out(B)."""
+    run = ctx.run
+    fam = run.family('purity.cells', 'no evaluation-time state: outside the output writers, the regex cache, the function table and the argument parser no MIR body mentions an interior-mutability type or a mutable static')
+    fam.need_witness = False
+    run.bounds['record-local premise'] = f'all {len(ctx.fns)} MIR bodies scanned for cell/lock/atomic/static-mut types; natively {len(RL_BATTERY)} pipelines x 3 records as A, B, A.B, B.A'
+    hits = {}
+    blocks = re.split(r'\n(?=(?:fn|static|const|static mut) )', ctx.mir_text)
+    for b in blocks:
+        hd = b.split('\n', 1)[0]
+        if not re.match(r"(fn|static|const) ", hd): continue
+        name = re.sub(r'^(fn|static mut|static|const) ', '', hd)
+        name = name.split('(', 1)[0] if hd.startswith('fn ') else name
+        fam.obligations += 1
+        found = sorted({x.group(0).strip('<: ') for x in re.finditer(CELLS, b)} | ({'static mut'} if hd.startswith('static mut') else set()))
+        if found and not any(re.search(a, name) for a in CELL_ALLOWED):
+            hits[name] = found
+        else:
+            fam.discharged += 1
+    fam.add_sample({'bodies scanned': len(blocks), 'allowed owners': CELL_ALLOWED, 'verdict': 'no evaluation-time cell outside the allowed owners' if not hits else 'hits'})
+    if not hits: return
+    c = Candidate(fam.name, 'cell-in-evaluation', 'interior mutability / mutable static reachable from expression evaluation: ' + '; '.join(f'{k[:70]}: {v}' for k, v in list(hits.items())[:4]),
+                  {'hits': {k: v for k, v in list(hits.items())[:10]}}, unmodelled='syntactic premise: a cell is not yet a leak')
+    fam.candidates.append(c)
+    from .cli import run_jawk, show
+    A = RL_RECORDS[0]; B = RL_RECORDS[1] + '\n' + RL_RECORDS[2]
+    for argv in RL_BATTERY:
+        for style in (['--style', 'consise'], ['-o', 'csv']):
+            out = {}
+            for k, inp in (('A', A), ('B', B), ('AB', A + '\n' + B), ('BA', B + '\n' + A)):
+                r = run_jawk(ctx, argv + style, (inp + '\n').encode()); out[k] = show(r['stdout']) if r['rc'] == 0 else f'rc={r["rc"]}'
+            hdr = 1 if style[1] == 'csv' else 0
+            def body(t): return t.splitlines()[hdr:]
+            if any(v.startswith('rc=') for v in out.values()): continue
+            if body(out['AB']) != body(out['A']) + body(out['B']) or body(out['BA']) != body(out['B']) + body(out['A']):
+                c.replay = {'argv': argv + style, 'A': A, 'B': B, 'out(A)': out['A'], 'out(B)': out['B'], 'out(A.B)': out['AB'], 'out(B.A)': out['BA'], 'expected': 'out(A.B) = out(A).out(B) and out(B.A) = out(B).out(A)'}
+                c.status = 'reproduced'; return
+    c.replay = {'battery': len(RL_BATTERY), 'result': 'every pipeline of the battery is record-local'}
+    c.status = 'not-reproduced'
